@@ -34,7 +34,7 @@ def _one(case, rec, cid, p):
     pp = proj_tp(p)
     if st == "ok":
         qq = proj_tp(q)
-        rec.ev("Add", cid, how=how, p=pp, d=proj_dur(d), q=qq, ok=True, cls="")
+        rec.ev("Add", cid, how=how, p=pp, d=proj_dur(mk_dur(case["d"])) if case.get("dvia") == "standardize" else proj_dur(d), q=qq, ok=True, cls="")
         return (qq["y"], qq["a"], qq["b"]) != (pp["y"], pp["a"], pp["b"])
     rec.ev("Add", cid, how=how, p=pp, d=proj_dur(d), q=pp, ok=False, cls=type(q).__name__)
     return True
@@ -52,8 +52,14 @@ def expand(job):
                     "how": rnd.choice(["add", "add", "radd", "sub"])}
             if not frac and case["p"]["hh"] < 24 and abs(case["p"]["y"]) < 900000 and rnd.random() < 0.15:
                 case["also"] = rnd.randrange(10 ** 6)
-            if not frac and rnd.random() < 0.15:
-                case["dvia"] = "parse"
+            if not frac and rnd.random() < 0.25:
+                case["dvia"] = rnd.choice(["parse", "floatdays", "standardize"])
+            if rnd.random() < 0.04:
+                # exact multiples of the calendar's own cycles: 20871 weeks = 146097 days = 400 Gregorian years, 52/53 weeks, 365/366 days
+                k_ = rnd.choice([1, 1, 2, -1])
+                case["d"] = rnd.choice([{"w": 20871 * k_}, {"d": 146097 * k_}, {"w": 20870 * k_}, {"d": 146096 * k_, "h": 24 * k_}, {"w": 52 * k_},
+                                        {"w": 53 * k_}, {"d": 365 * k_}, {"d": 366 * k_}, {"h": 24 * 146097 * k_}, {"d": 360 * 400 * k_}])
+                case.pop("dvia", None)
             yield case
     elif k == "sweep":      # every day of a year as a start, small steps in both directions
         sp, y = job["mode"], job["y"]
